@@ -122,7 +122,7 @@ Definition unique_refs (l : list (option ref)) : list (option ref) := rev (uniqu
 Definition store_response (q : request) (r : response) (url_key : bytes)
            (refs : list (option ref)) (req_at recv_at : Z) (ref_index : Z) : prog response :=
   let r1 := with_hdr r (remove_hop_by_hop (p_hdr r)) in
-  let vary := hget (bs "Vary") (p_hdr r1) in
+  let vary := join [44] (hvalues (bs "Vary") (p_hdr r1)) in
   match normalize_vary vary (q_hdr q) with
   | None => Unmodelled
   | Some resolved =>
